@@ -486,6 +486,11 @@ func runC02(c *Ctx) {
 		c.verdict("Attr."+fld+"→FUSE", token.NoPos, used[fld], "served to the kernel", "Attr."+fld+" is never served (the lazily mounted view drops this attribute)")
 	}
 
+	clauseLRUPin(c, "C02.d")
+	clauseStreamPosition(c, "C02.e")
+	clausePrivateCaches(c, "C02.f")
+	clauseSortedChunks(c, "C02.g")
+
 	// ---------- C02.a ----------
 	c.clause("C02.a", "T9", "every chunk-cache key in fs/reader is genID(id, offset, size) of one chunk: one ChunkEntryForOffset result, one chunkData, or the pre-reader callback's own parameters; the whole-file key is genID(id, 0, Σ sizes)", 7)
 	for _, f := range c.pkgFuncs(rp) {
